@@ -4,6 +4,11 @@
 use vcommon::*;
 use vhist::*;
 
+thread_local! {
+    /// case lines produced by the history running on this thread
+    static OUT: std::cell::RefCell<Vec<String>> = std::cell::RefCell::new(Vec::new());
+}
+
 struct Rec {
     steps: Vec<String>,
     n_scan: usize,
@@ -338,7 +343,7 @@ fn finish(mut w: World, mut rec: Rec, mut r: Rng, stats: &mut Vec<(String, usize
     } else {
         "None".into()
     };
-    case(format!("Hist 2 [{}] {}", rec.steps.join("; "), lin));
+    OUT.with(|o| o.borrow_mut().push(format!("Hist 2 [{}] {}", rec.steps.join("; "), lin)));
     let mut add = |k: &str, v: usize| {
         if let Some(e) = stats.iter_mut().find(|e| e.0 == k) {
             e.1 += v;
@@ -411,13 +416,18 @@ fn rewind(w: &mut World, rec: &mut Rec, r: &mut Rng, plan: &Plan, p: &ChainParam
     }
 }
 
+enum Job {
+    Hist(u64, Plan),
+    Lat(u64, u64),
+}
+
 fn main() {
     let a = args();
     quiet_panics();
-    let mut stats: Vec<(String, usize)> = vec![];
-    let (n_short, n_long) = if a.search { (60, 16) } else if a.thorough() { (220, 60) } else { (22, 4) };
+    let (n_short, n_long) = if a.search { (60, 16) } else if a.thorough() { (220, 60) } else { (20, 4) };
     let mut rr = Rng::new(a.seed, 7);
     let mut idx = 0u64;
+    let mut jobs: Vec<Job> = vec![];
     for _ in 0..n_short {
         let plan = Plan {
             len: rr.range(6, 60) as usize,
@@ -426,7 +436,7 @@ fn main() {
             long_tail: rr.chance(1, 3),
             ops_budget: 34,
         };
-        history(a.seed, idx, &plan, &mut stats);
+        jobs.push(Job::Hist(idx, plan));
         idx += 1;
     }
     for _ in 0..n_long {
@@ -437,13 +447,49 @@ fn main() {
             long_tail: true,
             ops_budget: 20,
         };
-        history(a.seed, idx, &plan, &mut stats);
+        jobs.push(Job::Hist(idx, plan));
         idx += 1;
     }
     let n_lat = if a.search { 24 } else if a.thorough() { 60 } else { 12 };
     for v in 0..n_lat {
-        lattice(a.seed, idx, v + a.seed % 20, &mut stats);
+        jobs.push(Job::Lat(idx, v + a.seed % 20));
         idx += 1;
+    }
+    // histories are independent (own wallet, own PRNG streams derived from the seed and the
+    // history index): run them on a few threads, print in index order
+    let seed = a.seed;
+    let next = std::sync::atomic::AtomicUsize::new(0);
+    let results: std::sync::Mutex<Vec<Option<(Vec<String>, Vec<(String, usize)>)>>> =
+        std::sync::Mutex::new((0..jobs.len()).map(|_| None).collect());
+    std::thread::scope(|sc| {
+        for _ in 0..8 {
+            sc.spawn(|| loop {
+                let i = next.fetch_add(1, std::sync::atomic::Ordering::SeqCst);
+                if i >= jobs.len() {
+                    break;
+                }
+                let mut st: Vec<(String, usize)> = vec![];
+                match &jobs[i] {
+                    Job::Hist(idx, plan) => history(seed, *idx, plan, &mut st),
+                    Job::Lat(idx, v) => lattice(seed, *idx, *v, &mut st),
+                }
+                let lines = OUT.with(|o| std::mem::take(&mut *o.borrow_mut()));
+                results.lock().unwrap()[i] = Some((lines, st));
+            });
+        }
+    });
+    let mut stats: Vec<(String, usize)> = vec![];
+    for r in results.into_inner().unwrap().into_iter().flatten() {
+        for l in r.0 {
+            case(l);
+        }
+        for (k, v) in r.1 {
+            if let Some(e) = stats.iter_mut().find(|e| e.0 == k) {
+                e.1 += v;
+            } else {
+                stats.push((k, v));
+            }
+        }
     }
     let body: Vec<String> = stats.iter().map(|(k, v)| format!("\"{k}\": {v}")).collect();
     stat(format!("{{{}}}", body.join(", ")));
